@@ -73,8 +73,9 @@ def run_unit(u, tier, root, build):
     t0 = time.time()
     env = dict(os.environ)
     env.update(KANI_ENV)
-    env['CARGO_TARGET_DIR'] = os.path.join(build, 'kani', u['name'])
-    rf = u.get('rustflags', '')
+    # extracted std-only crates share one target dir (kani's library is built once)
+    env['CARGO_TARGET_DIR'] = os.path.join(build, 'kani', u['name'] if u.get('mode') == 'inplace' else '_shared')
+    rf = (u.get('rustflags', '') + ' ' + u.get('tier_rustflags', {}).get(tier, '')).strip()
     if rf:
         env['RUSTFLAGS'] = rf
     common = os.path.join(root, 'units', 'common')
@@ -113,6 +114,24 @@ def run_unit(u, tier, root, build):
         res['generated_sha256'] = hashlib.sha256(gen.text.encode()).hexdigest()
         res['trusted'] = _scan_trusted(gen.text + open(os.path.join(u['dir'], 'harness.rs')).read())
     hs = [h for h in u['harnesses'] if tier in h.get('tiers', ['quick', 'thorough'])]
+    # result cache keyed by the exact verifier input (generated text / real crate sources,
+    # harnesses, flags, tool): identical input => identical verdict, so only the solver
+    # run is skipped; extraction from /repo's working tree still happens on every run.
+    key_src = json.dumps([u['name'], tier, rf, u['harnesses'], u.get('kani_args', []),
+                          res.get('generated_sha256'), [e.get('sha256') for e in res['extracted']],
+                          _hash_tree(os.path.join(u['dir'], 'harness.rs')) if os.path.exists(os.path.join(u['dir'], 'harness.rs')) else '',
+                          _hash_tree(os.path.join(common, 'src_kani.rs'))], sort_keys=True)
+    ckey = hashlib.sha256(key_src.encode()).hexdigest()
+    cpath = os.path.join(build, 'cache', 'kani-' + ckey + '.json')
+    if os.environ.get('VERIF_NO_CACHE') != '1' and os.path.exists(cpath):
+        try:
+            c = json.load(open(cpath))
+            if time.time() - c['at'] < 6 * 3600 and not c['res']['failures'] and not c['res']['undecided']:
+                c['res']['cached_result'] = {'key': ckey, 'age_s': int(time.time() - c['at'])}
+                c['res']['wall_s'] = time.time() - t0
+                return c['res']
+        except Exception:
+            pass
     if not hs:
         res['undecided'] = 'no harness for tier ' + tier
         return res
@@ -161,6 +180,9 @@ def run_unit(u, tier, root, build):
             _concrete_playback(u, h, crate, env, f, root, build)
             res['failures'].append(f)
     res['wall_s'] = time.time() - t0
+    if not res['failures'] and not res['undecided']:
+        os.makedirs(os.path.dirname(cpath), exist_ok=True)
+        json.dump({'at': time.time(), 'res': res}, open(cpath, 'w'))
     return res
 
 
@@ -195,12 +217,21 @@ def _concrete_playback(u, h, crate, env, f, root, build):
     except subprocess.TimeoutExpired:
         return
     out = p.stdout + p.stderr
-    vals = []
-    m = re.search(r'let concrete_vals: Vec<Vec<u8>> = vec!\[(.*?)\n\s*\];', out, re.S)
-    if not m:
+    vals = None
+    # one test per failing check AND per satisfied cover: take a failing check's test
+    for blk in re.split(r'Concrete playback unit test for', out)[1:]:
+        kind = re.search(r'/// Check for `(\w+)`', blk)
+        if kind and kind.group(1) == 'cover':
+            continue
+        m = re.search(r'let concrete_vals: Vec<Vec<u8>> = vec!\[(.*?)\n\s*\];', blk, re.S)
+        if not m:
+            continue
+        vals = []
+        for vm in re.finditer(r'vec!\[([\d,\s]*)\]', m.group(1)):
+            vals.append([int(x) for x in vm.group(1).replace(' ', '').split(',') if x != ''])
+        break
+    if vals is None:
         return
-    for vm in re.finditer(r'vec!\[([\d,\s]*)\]', m.group(1)):
-        vals.append([int(x) for x in vm.group(1).replace(' ', '').split(',') if x != ''])
     f['concrete_input'] = {'harness': h['name'], 'kani_concrete_vals': vals}
     # native replay on the real code
     from . import replay
